@@ -2,18 +2,33 @@ package main
 
 // Frame obligations: a function whose contract says `pure` or `modifies ...` must leave every pre-existing heap
 // location outside the modifies set unchanged (allocations made by the function are > reflimit and are free).
+// The same condition is carried through loops as an automatically generated loop invariant (checked on entry and on
+// every back edge like a written invariant, assumed at the header) for every heap variable the loop writes.
 
 import (
 	"fmt"
+	"go/types"
 	"sort"
 	"strings"
+
+	"golang.org/x/tools/go/ssa"
 )
 
 const probeVar = "HP:$probe"
 
-func (fg *FnGen) frameObligations(fr *Frame, ct *Contract) {
-	allowed := map[string]bool{}
-	var byteBases []*Term
+type frameSpec struct {
+	allowed   map[string]bool
+	byteBases []*Term
+	elemBases map[string][]*Term
+	skip      []string
+}
+
+// frameSpecFor evaluates the modifies clause of the function's contract once (over the entry state).
+func (fg *FnGen) frameSpecFor(fr *Frame, ct *Contract) *frameSpec {
+	if fg.fspec != nil {
+		return fg.fspec
+	}
+	fs := &frameSpec{allowed: map[string]bool{}, elemBases: map[string][]*Term{}}
 	env := fg.baseEnv(fr, fg.initState)
 	for _, m := range ct.Modifies {
 		if m == "nothing" {
@@ -23,16 +38,79 @@ func (fg *FnGen) frameObligations(fr *Frame, ct *Contract) {
 			ce, err := ParseCE(m[6 : len(m)-1])
 			if err == nil {
 				if v, err2 := env.eval(ce); err2 == nil && v.T != nil && v.T.Sort == SSlice {
-					byteBases = append(byteBases, SBase(v.T))
+					fs.byteBases = append(fs.byteBases, SBase(v.T))
 					continue
 				}
 			}
 			fg.bindFailure("frame:modifies", fmt.Errorf("cannot evaluate %s", m), fg.fn.Pos())
-			allowed["MemB"] = true
+			fs.allowed["MemB"] = true
 			continue
 		}
-		allowed[m] = true
+		if strings.HasPrefix(m, "elems(") && strings.HasSuffix(m, ")") {
+			ok := false
+			if ce, err := ParseCE(m[6 : len(m)-1]); err == nil {
+				if v, err2 := env.eval(ce); err2 == nil && v.T != nil && v.T.Sort == SSlice && v.Ty != nil {
+					if sl, isSl := v.Ty.Underlying().(*types.Slice); isSl {
+						mn, _, _ := fg.memVar(sl.Elem())
+						fs.elemBases[mn] = append(fs.elemBases[mn], SBase(v.T))
+						ok = true
+					}
+				}
+			}
+			if !ok {
+				fg.bindFailure("frame:modifies", fmt.Errorf("cannot evaluate %s", m), fg.fn.Pos())
+			}
+			continue
+		}
+		fs.allowed[m] = true
 	}
+	if ct.Options["frame_skip"] != "" {
+		fs.skip = strings.Fields(strings.ReplaceAll(ct.Options["frame_skip"], ",", " "))
+		fg.g.useTrusted("frame of " + fg.name + " not checked for " + ct.Options["frame_skip"] + " (scratch state that no contract observes)")
+	}
+	fg.fspec = fs
+	return fs
+}
+
+func hasFrame(ct *Contract) bool {
+	return ct != nil && (ct.Pure || len(ct.Modifies) > 0)
+}
+
+// frameGoal: "every pre-existing location of heap variable name outside the modifies set has its entry value in st";
+// nil when the variable is exempt or syntactically unchanged.
+func (fg *FnGen) frameGoal(fs *frameSpec, name string, st *State) *Term {
+	for _, p := range fs.skip {
+		if strings.HasPrefix(name, p) {
+			return nil
+		}
+	}
+	if fs.allowed[name] || strings.HasPrefix(name, "it:") || strings.HasPrefix(name, "defer:") || strings.HasPrefix(name, "ghost:") {
+		return nil
+	}
+	srt := fg.stateSorts[name]
+	vinit := fg.lookup(fg.initState, name, srt)
+	vfin := fg.lookup(st, name, srt)
+	if same(vfin, vinit) {
+		return nil
+	}
+	if strings.HasPrefix(srt, "(Array Int ") {
+		r := Bound(fg.freshName("fr"), SInt)
+		guard := And(Ge(r, IntLit(1)), Le(r, fg.refLimit()))
+		if name == "MemB" {
+			for _, b := range fs.byteBases {
+				guard = And(guard, Neq(r, b))
+			}
+		}
+		for _, b := range fs.elemBases[name] {
+			guard = And(guard, Neq(r, b))
+		}
+		return Forall([]*Term{r}, Implies(guard, Eq(Select(vfin, r), Select(vinit, r))))
+	}
+	return Eq(vfin, vinit)
+}
+
+func (fg *FnGen) frameObligations(fr *Frame, ct *Contract) {
+	fs := fg.frameSpecFor(fr, ct)
 	// make sure the probe variable exists: it changes only through havoc-all
 	fg.lookup(fg.initState, probeVar, ArraySort(SInt, SInt))
 	var names []string
@@ -40,46 +118,12 @@ func (fg *FnGen) frameObligations(fr *Frame, ct *Contract) {
 		names = append(names, n)
 	}
 	sort.Strings(names)
-	var skip []string
-	if ct.Options["frame_skip"] != "" {
-		skip = strings.Fields(strings.ReplaceAll(ct.Options["frame_skip"], ",", " "))
-		fg.g.useTrusted("frame of " + fg.name + " not checked for " + ct.Options["frame_skip"] + " (scratch state that no contract observes)")
-	}
 	for _, name := range names {
-		skipped := false
-		for _, p := range skip {
-			if strings.HasPrefix(name, p) {
-				skipped = true
-			}
-		}
-		if skipped {
-			continue
-		}
-		if allowed[name] || strings.HasPrefix(name, "it:") || strings.HasPrefix(name, "defer:") || strings.HasPrefix(name, "ghost:") {
-			continue
-		}
-		srt := fg.stateSorts[name]
-		vinit := fg.lookup(fg.initState, name, srt)
 		var goals []*Term
 		for _, rs := range fr.rets {
-			vfin := fg.lookup(rs.state, name, srt)
-			if same(vfin, vinit) {
-				continue
+			if goal := fg.frameGoal(fs, name, rs.state); goal != nil {
+				goals = append(goals, Implies(rs.reach, goal))
 			}
-			var goal *Term
-			if strings.HasPrefix(srt, "(Array Int ") {
-				r := Bound(fg.freshName("fr"), SInt)
-				guard := And(Ge(r, IntLit(1)), Le(r, fg.refLimit()))
-				if name == "MemB" {
-					for _, b := range byteBases {
-						guard = And(guard, Neq(r, b))
-					}
-				}
-				goal = Forall([]*Term{r}, Implies(guard, Eq(Select(vfin, r), Select(vinit, r))))
-			} else {
-				goal = Eq(vfin, vinit)
-			}
-			goals = append(goals, Implies(rs.reach, goal))
 		}
 		if len(goals) == 0 {
 			continue
@@ -92,5 +136,56 @@ func (fg *FnGen) frameObligations(fr *Frame, ct *Contract) {
 		if o != nil && name == probeVar {
 			o.Note = "a call with unknown effects (no contract, not inlineable, not on the effects list) is reachable; the pure/modifies clause cannot be established"
 		}
+	}
+}
+
+// loopFrameVars: the heap variables a loop writes, for which the frame condition is carried as an invariant.
+func (fg *FnGen) loopFrameVars(fr *Frame, li *loopInfo) []string {
+	if !hasFrame(fg.ct) || fg.fn == nil {
+		return nil
+	}
+	set, all := fg.loopWrites(fr, li)
+	if all {
+		return nil
+	}
+	var names []string
+	for n := range set {
+		if _, ok := fg.stateSorts[n]; ok {
+			names = append(names, n)
+		}
+	}
+	sort.Strings(names)
+	return names
+}
+
+// assumeLoopFrame: at a loop header, the frame condition holds for the havocked heap variables (it is proved on entry
+// and on every back edge by checkLoopFrame).
+func (fg *FnGen) assumeLoopFrame(fr *Frame, li *loopInfo, hst *State) {
+	if !hasFrame(fg.ct) {
+		return
+	}
+	fs := fg.frameSpecFor(fr, fg.ct)
+	for _, name := range fg.loopFrameVars(fr, li) {
+		if goal := fg.frameGoal(fs, name, hst); goal != nil {
+			fg.assumeIf(fr.reach[li.header], goal)
+		}
+	}
+}
+
+func (fg *FnGen) checkLoopFrame(fr *Frame, li *loopInfo, from *ssa.BasicBlock, st *State, which string, guard *Term) {
+	if !hasFrame(fg.ct) {
+		return
+	}
+	fs := fg.frameSpecFor(fr, fg.ct)
+	for _, name := range fg.loopFrameVars(fr, li) {
+		goal := fg.frameGoal(fs, name, st)
+		if goal == nil {
+			continue
+		}
+		label := fmt.Sprintf("inv:loop%d:%s:frame:%s", li.ordinal, which, name)
+		if which == "keep" && len(li.back) > 1 {
+			label += fmt.Sprintf("@b%d", from.Index)
+		}
+		fg.addObl("inv-"+which, label, guard, goal, li.header.Instrs[0].Pos(), "")
 	}
 }
